@@ -57,7 +57,7 @@ Section SigSpec.
     end.
 End SigSpec.
 
-(* an encrypted (type=1) body is admitted up to this wire size; only larger ones are refused *)
+(* an encrypted (type=1) body is accepted up to this wire size; only larger ones are refused *)
 Definition enc_body_limit : Z := 1048576.
 
 Definition guarded_methods : list string := ["GET"; "POST"; "PUT"; "DELETE"]%string.
